@@ -168,8 +168,39 @@ def check(ctx) -> None:
         ctx.instance("C10-A4", "ensemble_mcs: Parallel(return_as=%s)" % (unparse(ra) if ra is not None else "default"), en.loc(c), ok=ok)
         if not ok:
             ctx.finding("C10-A4", "mcs_process.ensemble_mcs:parallel-unordered", en.loc(c), "results of the per-condition search may arrive out of order; the tables of different conditions are joined by position")
-    src = unparse(en.node)
-    ok = "all_results.append(result)" in src and "condition_results.append(all_results)" in src and "for data_dict in data" in src
+    ok = _accumulates_in_order(en, pc)
     ctx.instance("C10-A4", "results appended in iteration order per condition", en.loc(), ok=ok)
     if not ok:
         ctx.finding("C10-A4", "mcs_process.ensemble_mcs:accumulation", en.loc(), "per-condition results are not accumulated in iteration order over the rows")
+
+
+def _accumulates_in_order(en: Func, pcalls) -> bool:
+    """for <cond> in conditions: L = []; G = Parallel(..)(delayed(f)(row..) for row in data);
+    for r in G: L.append(r); OUT.append(L)"""
+    data_param = en.params[0]
+    for c in pcalls:
+        outer = getattr(c, "_parent", None)  # Parallel(...)(<generator>)
+        if not (isinstance(outer, ast.Call) and outer.args and isinstance(outer.args[0], ast.GeneratorExp)):
+            return False
+        gen = outer.args[0]
+        if gen.generators[0].ifs or not (isinstance(gen.generators[0].iter, ast.Name) and gen.generators[0].iter.id == data_param):
+            return False
+        stmt = getattr(outer, "_parent", None)
+        if not (isinstance(stmt, ast.Assign) and isinstance(stmt.targets[0], ast.Name)):
+            return False
+        gname = stmt.targets[0].id
+        loops = [n for n in own_nodes(en.node) if isinstance(n, ast.For) and isinstance(n.iter, ast.Name) and n.iter.id == gname and isinstance(n.target, ast.Name)]
+        if len(loops) != 1:
+            return False
+        lp = loops[0]
+        apps = [x for x in ast.walk(lp) if isinstance(x, ast.Call) and isinstance(x.func, ast.Attribute) and x.func.attr == "append" and x.args and isinstance(x.args[0], ast.Name) and x.args[0].id == lp.target.id and isinstance(x.func.value, ast.Name)]
+        if len(apps) != 1:
+            return False
+        lname = apps[0].func.value.id
+        outer_apps = [x for x in own_nodes(en.node) if isinstance(x, ast.Call) and isinstance(x.func, ast.Attribute) and x.func.attr == "append" and x.args and isinstance(x.args[0], ast.Name) and x.args[0].id == lname]
+        if len(outer_apps) != 1:
+            return False
+        # no reordering of the per-condition list
+        if any(isinstance(x, ast.Call) and isinstance(x.func, ast.Attribute) and isinstance(x.func.value, ast.Name) and x.func.value.id == lname and x.func.attr in ("sort", "reverse", "insert", "pop", "remove") for x in own_nodes(en.node)):
+            return False
+    return True
